@@ -7,7 +7,9 @@ write_fits_mem -> read_fits_mem round trips) and, separately, single entries str
 replays the same lines on PsV.Aux.step; outcome token and the full ordered store must agree after every op, exactly.
 Oracle: a reference ordered map kept here in Python from the *requested* operations (independent of the Lean model):
 lookups/removals/typed reads are judged against it, a rejected write must leave the store untouched, and every entry
-present before a round trip must come back with the same key, in the same order, the value equal up to trailing blanks."""
+present before a round trip must come back with the same key, in the same order, the value equal up to trailing blanks
+and, for plain keys and printable values, followed by exactly the number of blanks theorem C16_accepted_survive_fits
+states (pad_of = PsV.Aux.padOf, written out again here)."""
 import json, os, re, struct, subprocess, sys
 from collections import Counter
 
@@ -42,6 +44,12 @@ def key_class(k):
     if k.startswith("HIERARCH "): return "explicit-HIERARCH-prefix"
     if k in ("END", "HISTORY", "CONTINUE"): return "commentary-keyword-" + k
     return None
+
+
+def pad_of(k, v):
+    """PsV.Aux.padOf: blanks a FITS round trip appends (value padded to 8 characters inside the quotes, cut short on a full HIERARCH card)"""
+    d = len(v) + v.count("'")
+    return max(0, 8 - d) if len(k) <= 8 else max(0, min(8 - d, 67 - len(k) - d))
 
 
 def dbl_bits(x):
@@ -136,6 +144,9 @@ class Oracle:
                         if y.rstrip(" ") != b.rstrip(" "):
                             sub = "quote" if "'" in b else "value"
                             why = (sub, a, "value %r of key %r came back as %r" % (b, a, y)); break
+                        # the exact statement of theorem C16_accepted_survive_fits (padOf), evaluated on the implementation's output
+                        if key_class(a) is None and all(32 <= ord(ch) < 127 for ch in a + b) and y != b + " " * pad_of(a, b):
+                            why = ("pad", a, "value %r of key %r came back as %r, the theorem says %d padding blanks" % (b, a, y, pad_of(a, b))); break
                 if why:
                     cls = None
                     for a, b in ref: cls = cls or key_class(a)
